@@ -241,7 +241,7 @@ theorem postOk_writeAll_init (env : Env) : PostOk env Memfs.init (.writeAll pF b
 theorem init_absent_pF (env : Env) : pExists env Memfs.init pF = false := by
   rw [pExists_key (key_pF env Memfs.init)]; rfl
 
-/-! ### `copyfile`: a positive example, and (A6) a source that is not valid UTF-8 -/
+/-! ### `copyfile`: a positive example, and (A6, repaired) a source that is not valid UTF-8 -/
 
 def nmG : Str := ['g']
 def kG : FsPath := [nmG]
@@ -285,32 +285,39 @@ theorem macroSpec_copyfile_sBin (env : Env) : macroSpec env sBin (.copyfile pF p
   simp only [opOf, step_copy_sBin, postSpec, nodeOf_key (key_pF env _), pHasBytes, nodeOf_key (key_pG env _)]
   decide
 
-/-- ... and the macro panics, because it compares what `read_all` returns, and `read_all` is text -/
+/-- ... and the macro passes: it compares the bytes (`read` + `read_to_end`), `[0xFF] = [0xFF]`
+    (before the repair it compared `read_all` texts and panicked with "failed reading src file") -/
 theorem wit_copyfile_bin_run (env : Env) :
-    runMacro env sBin (.copyfile pF pG) =
-      (pm "assert_vfs_copyfile!" "failed reading src file", sTwo bytesBin) := by
+    runMacro env sBin (.copyfile pF pG) = (.pass, sTwo bytesBin) := by
   have hsp := (step_copy_spell (key_pF env sBin) (stable_kF env sBin) (key_pG env sBin) (stable_kG env sBin)).trans
     (step_copy_sBin env)
   have h1 : eAt sBin kF (fun _ => true) = true := by decide
   have h2 : eAt sBin kF (fun e => e.file && !e.link) = true := by decide
-  have hread : step env (sTwo bytesBin) (.readAll (renderP kF)) = (.err .ioInvalidData, sTwo bytesBin) := by
-    rw [step_readAll_key (stable_kF env _)]
+  have h3 : eAt (sTwo bytesBin) kG (fun e => e.file && !e.link) = true := by decide
+  have hreadF : step env (sTwo bytesBin) (.read (renderP kF)) = (.ok (.bytes bytesBin), sTwo bytesBin) := by
+    rw [step_read_key (stable_kF env _)]
+    decide
+  have hreadG : step env (sTwo bytesBin) (.read (renderP kG)) = (.ok (.bytes bytesBin), sTwo bytesBin) := by
+    rw [step_read_key (stable_kG env _)]
     decide
   simp only [runMacro, absK_eq, key_pF, key_pG, boolK_exists, boolK_isFile,
-    eTest_stable (stable_kF env sBin), call_of hsp, h1, h2, contOf, Bool.not_true, Bool.false_eq_true,
-    if_false, call_of hread]
+    eTest_stable (stable_kF env sBin), eTest_stable (stable_kG env (sTwo bytesBin)), call_of hsp, h1, h2, h3,
+    contOf, Bool.not_true, Bool.false_eq_true, if_false, call_of hreadF, call_of hreadG, ne_eq,
+    not_true_eq_false]
+
+theorem sTwo_bin_content (env : Env) : pHasBytes env (sTwo bytesBin) pG bytesBin = true := by
+  simp only [pHasBytes, nodeOf_key (key_pG env _)]
+  decide
+
+/-- `read_all` on the same file still fails (the text API cannot return 0xFF) — the macro no longer uses it -/
+theorem readAll_bin_err (env : Env) :
+    step env (sTwo bytesBin) (.readAll pF) = (.err .ioInvalidData, sTwo bytesBin) := by
+  rw [step_readAll_key (key_pF env _)]
+  decide
 
 theorem macroSpec_copyfile_sFile (env : Env) : macroSpec env sFile (.copyfile pF pG) = (true, sTwo bytesOld) := by
   rw [macroSpec_of_not_noop rfl]
   simp only [opOf, step_copy_sFile, postSpec, nodeOf_key (key_pF env _), pHasBytes, nodeOf_key (key_pG env _)]
-  decide
-
-theorem srcTextOk_sFile (env : Env) : srcTextOk env (step env sFile (.copy pF pG)).2 pF = true := by
-  simp only [step_copy_sFile, srcTextOk, nodeOf_key (key_pF env _)]
-  decide
-
-theorem srcTextOk_sBin (env : Env) : srcTextOk env (step env sBin (.copy pF pG)).2 pF = false := by
-  simp only [step_copy_sBin, srcTextOk, nodeOf_key (key_pF env _)]
   decide
 
 end Rivia.MacroLemmas
